@@ -48,6 +48,15 @@ def lock_error_functions(P):
     return can
 
 
+def c11_callee(t):
+    from ir import callee_of
+    return callee_of(t)
+
+
+def is_local(o):
+    return isinstance(o, dict) and 'l' in o
+
+
 def run(ctx):
     C = Check('C16', ctx['tier'], 'other', ctx['seed'])
     P = Program(ctx['facts'])
@@ -169,6 +178,29 @@ def run(ctx):
         C.check(oka, 'C16-MUST-atomic', 'create_file|name-check-and-insert-under-one-guard', 'create_file checks for an existing file of the same name and adds the new file under two separate acquisitions of the model lock: '
                 'two concurrent create_file calls with the same name both succeed and the model holds two files of one name, which no serial order produces', cf.where(pushes[0]) if pushes else '%s:%d' % (cf.file, cf.line),
                 sample={'fn': 'create_file', 'scan_guard': sorted(map(str, [guard_of(s_) for s_ in scans])), 'push_guard': sorted(map(str, [guard_of(p_) for p_ in pushes]))})
+    # a public operation that changes an element through a `&self` method of ElementRaw holds that element's WRITE lock while it does
+    # (the raw methods that edit other elements - referrers, children - rely on the caller for the exclusion of concurrent editors)
+    C.rule('C16-MUST-exclusive', 'every call from an `Element::` method to a may-mutate `ElementRaw::` method goes through a guard obtained from a write-family acquisition (write / try_write*), never from read()')
+    from flow import receiver_chain_locals as _rcl
+    nex = 0
+    for b in scope:
+        if not b.short.startswith('Element::') or b.kind == 'Closure':
+            continue
+        lockd = {b.blocks[q[0]]['term']['dst']['l']: b.blocks[q[0]]['term'] for q in _calls(b, r'RwLock::<R, T>::(write|read|try_write\w*|try_read\w*|upgradable_read\w*)$')}
+        if not lockd:
+            continue
+        for pos, t in b.iter_calls():
+            cid = c11_callee(t)
+            if cid in MUT and P.bodies[cid].short.startswith('ElementRaw::') and t['args'] and is_local(t['args'][0]):
+                gs = set(lockd) & _rcl(b, t['args'][0])
+                if not gs:
+                    continue
+                nex += 1
+                rd = [g for g in gs if re.search(r'::(read|try_read\w*)$', (lockd[g]['f'].get('fn') or ''))]
+                C.check(not rd, 'C16-MUST-exclusive', '%s|%s|through-a-write-guard' % (b.short, P.bodies[cid].short.split('::')[-1]), '%s calls the mutating %s through a READ guard of the element: two threads can run it at the same time and interleave '
+                        '(name, index and references end up naming different paths), which no serial order produces' % (b.short, P.bodies[cid].short), b.where(pos),
+                        sample={'fn': b.short, 'callee': P.bodies[cid].short, 'guard': 'write'} if nex % 8 == 1 else None)
+    C.floor('C16-MUST-exclusive.sites', nex, 10)
     C.floor('C16-FLOW-lockfail.lock-error-functions', len(can), 20)
     C.extra['pairs_examined'] = n_all
     C.extra['pairs_with_lock_error_exit'] = n
